@@ -69,7 +69,7 @@ def main(argv=None):
 def run_check(prop, tier, seed, scratch, t0, args):
     plan = plans.plan_for(prop, tier, seed)
     hand_names = ["selftest::twin_ok", "selftest::twin_fail"] + plan.hand
-    modules = sorted({hand.module_of(h) for h in hand_names})
+    modules = hand.modules_for(hand_names)
     try:
         ws = kani.Workspace(scratch, plan.text(), modules)
         for line in ws.gen_stdout.splitlines():
